@@ -89,7 +89,7 @@ def gen_member(rng, i):
     elif i < len(axes) + 10:
         p["limit"] = LIMITS[1 + i - len(axes) - 7]
     elif i < corners:
-        p["edns0"] = False
+        p["edns0"] = False if i % 2 else "formerr"
     else:
         p["qcfg"] = [rng.choice(CASES), rng.choice(EIGHT), rng.choice(PUNCT)]
         p["acfg"] = [rng.choice(CASES), rng.choice(EIGHT), rng.choice(PUNCT)]
@@ -97,6 +97,8 @@ def gen_member(rng, i):
         p["allowed"] = ORDER[k:] if rng.random() < 0.6 else sorted(rng.sample(ORDER, rng.randint(1, 6)), key=ORDER.index)
         p["limit"] = rng.choice(LIMITS)
         p["edns0"] = rng.random() < 0.6
+        if not p["edns0"] and rng.random() < 0.4:
+            p["edns0"] = "formerr"        # does not honour EDNS0 the loud way: FORMERR to every query with an OPT record
         p["refuse"] = rng.choice(["servfail", "silence"])
         if not member_valid(p):
             p["allowed"] = sorted(set(p["allowed"]) | {rng.choice(["TXT", "SRV", "MX", "CNAME", "A"])}, key=ORDER.index)
